@@ -7,8 +7,11 @@ package main
 // slot_holds_newest; theorems C14_*, C15_released_by_*).
 
 import (
+	"bytes"
 	"context"
 	"fmt"
+	"runtime/pprof"
+	"strings"
 	"sync"
 	"sync/atomic"
 	"time"
@@ -34,7 +37,7 @@ func (t *manualTrigger) RegisterOnElection(h primitives.BlockHeight, v primitive
 	t.log.add(0, "ARM", uint64(h), uint64(v), 0, false, "")
 }
 func (t *manualTrigger) ElectionChannel() chan *interfaces.ElectionTrigger { return t.ch }
-func (t *manualTrigger) CalcTimeout(v primitives.View) time.Duration        { return time.Hour }
+func (t *manualTrigger) CalcTimeout(v primitives.View) time.Duration       { return time.Hour }
 func (t *manualTrigger) Stop() {
 	t.mu.Lock()
 	t.cb = nil
@@ -315,7 +318,9 @@ func directedSyncSlot(rep *Report, seed int64, gap time.Duration) {
 	callCtx := d.utils.ctxOfCall()
 	sync := func(h uint64) bool {
 		res := make(chan error, 1)
-		go func() { res <- d.lh.UpdateState(d.ctx, &vblock{height: primitives.BlockHeight(h), id: 9000 + h}, d.cdc.syncProof(h)) }()
+		go func() {
+			res <- d.lh.UpdateState(d.ctx, &vblock{height: primitives.BlockHeight(h), id: 9000 + h}, d.cdc.syncProof(h))
+		}()
 		select {
 		case err := <-res:
 			d.log.add(0, "SYNCRET", h, 0, 0, err == nil, "")
@@ -501,6 +506,7 @@ func directedInboxFlood(rep *Report, seed int64) {
 	case <-flood:
 	case <-time.After(4 * time.Second):
 		fail("C14", "main-loop-blocked", "directed: the main loop stopped taking messages while the worker was inside an SPI call (more messages than the worker's inbox holds)")
+		fail("C12", "wedged-by-message-burst", "directed: 1300 well-formed messages while the worker was inside an SPI call wedged the node: the main loop no longer takes messages, syncs or election triggers")
 		return
 	}
 	res := make(chan error, 1)
@@ -586,7 +592,129 @@ func directedLateProposalOfElectedLeader(rep *Report, seed int64) {
 	}
 }
 
+// an election trigger that is left over from a height the node has left must not touch the contexts of the height it is
+// working on now (C15: events about older positions cancel nothing current)
+func directedStaleHeightTrigger(rep *Report, seed int64) {
+	d := newDirectedNode(seed)
+	fail := func(prop, sig, detail string) { rep.finding(prop, sig, detail, d.replay()) }
+	defer func() {
+		if !d.stop() {
+			fail("C16", "shutdown-hangs", "directed stale-height scenario: WaitUntilShutdown did not return")
+		}
+	}()
+	rep.count("runtime:directed-stale-height-trigger")
+	go d.lh.UpdateState(d.ctx, nil, nil)
+	if !d.waitFor("NR", 1, 0, 3*time.Second) {
+		fail("C14", "sync-no-effect", "directed: UpdateState(genesis) did not start height 1")
+		return
+	}
+	res := make(chan error, 1)
+	go func() { res <- d.lh.UpdateState(d.ctx, &vblock{height: 2, id: 9002}, d.cdc.syncProof(2)) }()
+	select {
+	case <-res:
+	case <-time.After(2 * time.Second):
+		fail("C14", "updatestate-blocked", "directed: UpdateState(block 2) did not return within 2s")
+		return
+	}
+	if !d.waitFor("NR", 3, 0, 3*time.Second) {
+		fail("C14", "sync-no-effect", "directed: UpdateState(block 2) did not start height 3")
+		return
+	}
+	gate := d.utils.setGate()
+	var opened int32
+	open := func() {
+		if atomic.CompareAndSwapInt32(&opened, 0, 1) {
+			close(gate)
+		}
+	}
+	defer open()
+	go d.lh.HandleConsensusMessage(d.ctx, d.preprepare(3, 0, 3, 781)) // committee order at height 3 is 3, 0, 1, 2: member 3 leads view 0
+	if !d.waitFor("SPI+validate", 3, 0, 3*time.Second) {
+		rep.count("runtime:directed-setup-failed")
+		return
+	}
+	callCtx := d.utils.ctxOfCall()
+	if !d.trig.fire(1, 0, "stale-height") {
+		fail("C14", "main-loop-blocked", "directed: the main loop did not take an election trigger while the worker was inside an SPI call")
+		return
+	}
+	time.Sleep(100 * time.Millisecond)
+	if callCtx != nil && callCtx.Err() != nil {
+		fail("C15", "current-context-cancelled-by-stale-trigger", "directed: the context of the SPI call for (3,0) was cancelled by a late election trigger of (1,0), a height the node has left")
+	}
+	open()
+	if !d.waitFor("SEND", 3, 0, 2*time.Second) {
+		fail("C15", "current-context-cancelled-by-stale-trigger", "directed: after a late election trigger of (1,0) the node at (3,0) did not PREPARE the proposal it had validated")
+	}
+}
+
+// a node that is not in the committee of the next height has no term there: the timer of the term it leaves must be
+// stopped on the way out, or it is still armed when the node shuts down (C16)
+func directedLeaveCommitteeThenShutdown(rep *Report, seed int64) {
+	log := &rtLog{start: time.Now()}
+	kr := newKeyring(seed)
+	committee := func(h primitives.BlockHeight) []interfaces.CommitteeMember {
+		var ms []interfaces.CommitteeMember
+		for j := 0; j < 4; j++ {
+			id := uint64(j)
+			if h >= 2 {
+				id = uint64(j + 1) // member 0 is out from height 2 on
+			}
+			ms = append(ms, interfaces.CommitteeMember{Id: idBytes(id), Weight: 1})
+		}
+		return ms
+	}
+	cfg := &interfaces.Config{
+		InstanceId:          rtInst,
+		Communication:       &nullComm{log},
+		Membership:          &membership{me: idBytes(0), committee: committee},
+		BlockUtils:          &gatedUtils{log: log},
+		KeyManager:          &keyManager{kr, idBytes(0)},
+		ElectionTimeoutOnV0: 60 * time.Millisecond,
+	}
+	ctx, cancel := context.WithCancel(context.Background())
+	lh := leanhelix.NewLeanHelix(cfg, func(ctx context.Context, b interfaces.Block, p []byte) error { return nil },
+		func(ctx context.Context, h primitives.BlockHeight, prev interfaces.Block, lead bool) {
+			log.add(0, "NR", uint64(h), 0, 0, lead, "")
+		})
+	waiter := lh.Run(ctx)
+	rep.count("runtime:directed-leave-committee-then-shutdown")
+	cdc := newCodec(kr)
+	go lh.UpdateState(ctx, nil, nil)
+	deadline := time.Now().Add(2 * time.Second)
+	for time.Now().Before(deadline) && uint64(lh.State().Height()) < 1 {
+		time.Sleep(time.Millisecond)
+	}
+	lh.UpdateState(ctx, &vblock{height: 1, id: 9001}, cdc.syncProof(1))
+	deadline = time.Now().Add(2 * time.Second)
+	for time.Now().Before(deadline) && uint64(lh.State().Height()) < 2 {
+		time.Sleep(time.Millisecond)
+	}
+	cancel()
+	done := make(chan struct{})
+	go func() {
+		t, c := context.WithTimeout(context.Background(), 4*time.Second)
+		defer c()
+		waiter.WaitUntilShutdown(t)
+		close(done)
+	}()
+	select {
+	case <-done:
+	case <-time.After(4500 * time.Millisecond):
+		rep.finding("C16", "shutdown-hangs", "directed leave-committee scenario: WaitUntilShutdown did not return", map[string]interface{}{"script": "leave-committee"})
+		return
+	}
+	time.Sleep(150 * time.Millisecond) // the timer of height 1 (60 ms) would have expired by now
+	var b bytes.Buffer
+	pprof.Lookup("goroutine").WriteTo(&b, 1)
+	if k := strings.Count(b.String(), "electiontrigger.triggerElections"); k > 0 {
+		rep.finding("C16", "timer-fires-after-shutdown", fmt.Sprintf("directed: the node left the committee at height 2 and was shut down; the election timer of height 1 fired afterwards (%d goroutine(s) parked in triggerElections)", k), map[string]interface{}{"script": "leave-committee", "events": log.snapshot()})
+	}
+}
+
 func runDirected(rep *Report, seed int64, thorough bool) {
+	directedStaleHeightTrigger(rep, seed+104)
+	directedLeaveCommitteeThenShutdown(rep, seed+105)
 	directedLateProposalOfElectedLeader(rep, seed+103)
 	directedInboxFlood(rep, seed+102)
 	directedFutureViewProposal(rep, seed+100)
